@@ -6,11 +6,13 @@ import (
 	"math/rand"
 	"os"
 	"path/filepath"
+	"runtime"
 	"runtime/debug"
 	"sort"
 	"strconv"
 	"strings"
 	"sync"
+	"sync/atomic"
 
 	"github.com/lindb/common/pkg/ltoml"
 
@@ -447,6 +449,29 @@ func (d *driver) driveRandom(tier string) error {
 				if e != nil {
 					return fmt.Errorf("concurrent flush: %w", e)
 				}
+			}
+		case r < 94:
+			// a flush racing with the obsolete-file cleanup of the same family (what the end of every background
+			// compaction / rollup job runs): the table of the flush must survive until its commit is installed
+			p := d.planFlush(fam, false, 0)
+			cop := d.begin("cleanup", fam)
+			var stop atomic.Bool
+			var wg sync.WaitGroup
+			wg.Add(1)
+			f := d.fams[fam]
+			go func() {
+				defer wg.Done()
+				for !stop.Load() {
+					kv.VerifFamilyDeleteObsoleteFiles(f)
+					runtime.Gosched()
+				}
+			}()
+			ferr := d.doFlush(p)
+			stop.Store(true)
+			wg.Wait()
+			d.end(cop, nil)
+			if ferr != nil {
+				return fmt.Errorf("flush during cleanup: %w", ferr)
 			}
 		default:
 			// a flush racing with a compaction of the same family
